@@ -55,6 +55,14 @@ structure Gen where
 structure PSt where
   gen : Gen
   errors : List Int
+  sites : List String := []   -- tagged code sites passed (for known-finding attribution)
+  /-- `self._simple_value`: the token of the value most recently returned by `parse_value`,
+      when that value is exactly the decoded simple value of the token (the identity test
+      `written[1] is last_v` of the module post-hook succeeds exactly then). -/
+  simple : Option Token := none
+  /-- model-only bookkeeping for finding attribution: the last assignment was closed by an
+      explicit statement delimiter -/
+  afterDelim : Bool := false
 
 abbrev PM := ExceptT PErr (StateM PSt)
 
@@ -119,6 +127,9 @@ def softCatch {α} (m : PM α) (h : PM α) : PM α :=
     | .lexer p => throw (.lexer p)
     | .value => h
     | e => throw e)
+
+def mark (site : String) : PM Unit :=
+  modify (fun s => { s with sites := s.sites ++ [site] })
 
 def emptyValue (c : PCfg) (pos : Int) : PM Val := do
   let eq := rfindChar c.doc 61 0 pos
@@ -240,11 +251,14 @@ def value (c : PCfg) : Nat → PM Val
     -- t = next(tokens); value = decode_simple_value(t)   inside `try … except ValueError`
     let first : Except PErr Token ← tryCatch (do let t ← next; pure (Except.ok t))
       (fun e => if e.isValueError then pure (Except.error e) else throw e)
+    modify (fun s => { s with simple := none })
     let v : Val ← match first with
       | .error _ => throw .unbound      -- `tokens.send(t)` with `t` never assigned
       | .ok t =>
         match decodeSimple c.d t.text with
-        | .ok v => pure v
+        | .ok v => do
+          modify (fun s => { s with simple := some t })
+          pure v
         | .error .type => throw .type
         | .error .value => do
           send t
@@ -261,9 +275,18 @@ def value (c : PCfg) : Nat → PM Val
               match r3 with
               | some v => pure v
               | none => throwIn
+    -- a compound or hook-made value is not the object the record names
+    (match first with
+     | .ok t => (match decodeSimple c.d t.text with
+                 | .ok _ => pure ()
+                 | .error _ => modify (fun s => { s with simple := none }))
+     | .error _ => pure ())
     let _ ← wscUntil c none fuel
-    tryCatch (units c v) (fun e => match e with
-      | .lexer _ => pure v
+    tryCatch (do
+        let q ← units c v
+        modify (fun s => { s with simple := none })
+        pure q) (fun e => match e with
+      | .lexer p => throw (.lexer p)
       | .value => pure v
       | .stop => pure v
       | e => throw e)
@@ -332,11 +355,12 @@ def assignmentBase (c : PCfg) (fuel : Nat) : PM (Str × Val) := do
   if !isName then
     send t
     throw .value
-  aroundEquals c fuel
+  softCatch (aroundEquals c fuel) throwIn
   let v ← tryCatch (value c fuel) (fun e => match e with
     | .stop => throw (.parse (some t))
     | e => throw e)
-  let _ ← stmtDelim c fuel
+  let del ← stmtDelim c fuel
+  modify (fun s => { s with afterDelim := del })
   pure (t.text, v)
 
 /-- `parse_assignment_statement` (OmniParser extends it) -/
@@ -372,7 +396,7 @@ def beginAgg (c : PCfg) (fuel : Nat) : PM (Str × Str) := do
   if !Tok.isBeginAggregation c.g b.text then
     send b
     throw .value
-  tryCatch (aroundEquals c fuel) (fun e => if e.isValueError then throwIn else throw e)
+  softCatch (aroundEquals c fuel) throwIn
   let name ← tryCatch next (fun e => match e with
     | .stop => throw (.parse none)
     | e => throw e)
@@ -392,7 +416,7 @@ def endAgg (c : PCfg) (begin name : Str) (fuel : Nat) : PM Unit := do
     throw .value
   let eqOk ← tryCatch (do aroundEquals c fuel; pure true) (fun er => match er with
     | .parse _ => pure false
-    | .lexer _ => pure false
+    | .lexer p => throw (.lexer p)
     | .value => pure false
     | er => throw er)
   if !eqOk then
@@ -426,15 +450,24 @@ def moduleHook (c : PCfg) (m : Items) (fuel : Nat) : PM (Items × Except PErr Bo
         | none => pure (m, .error .exc)
         | some (lastK, lastV) =>
           let lastTok := tokenTextOf lastV
-          match Tok.isParameterName c.d lastTok with
+          let st ← get
+          let bare : Bool := match st.simple with
+            | some w => (match lastV with
+                         | .str sv => sv == w.text
+                         | _ => false)
+            | none => true            -- not known how it was written
+          match (if bare then Tok.isParameterName c.d lastTok else .ok false) with
           | .error e => pure (m, .error (ofDErr e))
           | .ok true =>
+            mark "omni-hook-reinterprets-previous-value-as-name"
+            if (← get).afterDelim then mark "omni-hook-reinterprets-across-delimiter"
             let ev ← emptyValue c t.pos
             let m1 := m.dropLast ++ [(lastK, ev)]
             let body : PM Val := do
               let _ ← wscUntil c none fuel
               let v ← value c fuel
-              let _ ← stmtDelim c fuel
+              let del ← stmtDelim c fuel
+              modify (fun s => { s with afterDelim := del })
               pure v
             let r ← tryCatch (do let v ← body; pure (Except.ok v)) (fun e => pure (Except.error e))
             match r with
@@ -475,7 +508,7 @@ def aggBlock (c : PCfg) : Nat → PM (Str × Val)
   | fuel + 1 => do
     let (begin, name) ← beginAgg c fuel
     match aggregationCls c.g begin with
-    | none => throw .value
+    | none => throwIn
     | some kind =>
       let items ← aggLoop c begin name [] fuel
       pure (name, .cont kind items)
@@ -502,7 +535,8 @@ def aggLoop (c : PCfg) (begin name : Str) (agg : Items) : Nat → PM Items
           | .ok true => aggLoop c begin name agg' fuel
           | .error .fuel => throw .fuel
           | .error (.lexer p) => throw (.lexer p)
-          | _ => throw .value          -- `raise ve`
+          | .error (.parse t) => throw (.parse t)
+          | _ => throwIn               -- the block was opened: a hard error
 end
 
 /-- `parse_module` -/
@@ -529,6 +563,7 @@ def moduleLoop (c : PCfg) (m : Items) : Nat → PM Items
     | .ok false => pure m3
     | .error .fuel => throw .fuel
     | .error (.lexer p) => throw (.lexer p)
+    | .error (.parse t) => throw (.parse t)
     | .error _ =>
       if p1 || p2 then moduleLoop c m3 fuel
       else do
@@ -540,6 +575,7 @@ end P
 structure ParseResult where
   outcome : Except PErr Items
   errors : List Int     -- `parser.errors` after the call (unsorted, as stored)
+  sites : List String
   deriving Repr
 
 /-- `re.sub(r"-[\n\r\f]\s*", "", s)` (parser.py:855) -/
@@ -568,8 +604,8 @@ def parseWith (g : Grammar) (d : Dec) (kind : ParserKind) (prior : List Int) (s 
   let doc := if kind == .omni then omniPrepass s else s
   let (toks, tail) := lexAll g d doc
   let c : PCfg := ⟨g, d, kind, doc⟩
-  let st : PSt := ⟨⟨toks, tail, none, none, false⟩, prior⟩
+  let st : PSt := ⟨⟨toks, tail, none, none, false⟩, prior, [], none, false⟩
   let (r, st') := (P.moduleLoop c [] (fuelFor (toks.length + 2))).run.run st
-  ⟨r, st'.errors⟩
+  ⟨r, st'.errors, st'.sites⟩
 
 end Pvl
